@@ -71,6 +71,7 @@ struct Op {
     string name;                // FILE: the operand as the user typed it (empty: "sim:<n>"); made unique per invocation by the harness
     int fkind = 0;              // FILE: what fstat() says - 0 regular file (st_size = length), 1 FIFO/pipe (st_size = 0)
     string of_kind; long long of_at = -1; int of_errno = 0;                        // INVOKE: stdout fault
+    int tty = 0;                // INVOKE: bit 0 = stdout is a terminal, bit 1 = stderr is a terminal (what isatty() says)
     int usage = 0;              // INVOKE: 1 = "-h", 2 = "--help" as first argument (files follow); an invocation without files is the usage path too
     int loc = 0;                // INVOKE: the user's locale (the tool calls setlocale(LC_ALL, "")): 0 C, 1 C.UTF-8, 2 a single-byte locale
 };
@@ -89,6 +90,7 @@ static sj::Value op_to_json(const Op &op) {
     }
     if (op.k == "INVOKE" && op.loc) j.set("loc", op.loc);
     if (op.k == "INVOKE" && op.usage) j.set("usage", op.usage);
+    if (op.k == "INVOKE" && op.tty) j.set("tty", op.tty);
     if (op.k == "INVOKE" && !op.of_kind.empty()) { sj::Value f = sj::Value::object(); f.set("kind", op.of_kind); f.set("at", op.of_at); f.set("errno", op.of_errno); j.set("of", f); }
     return j;
 }
@@ -105,7 +107,7 @@ static Plan plan_from_json(const sj::Value &j) {
     if (ops) for (auto &e : ops->a) {
         Op op; op.k = e.gets("k");
         if (op.k != "INVOKE" && op.k != "FILE" && op.k != "LINE") continue;
-        op.s = e.gets("s"); op.t = (int)e.geti("t"); op.fkind = (int)e.geti("kind"); op.loc = (int)e.geti("loc"); op.usage = (int)e.geti("usage"); op.name = e.gets("name"); if (op.name.find('\0') != string::npos) op.name = op.name.substr(0, op.name.find('\0'));
+        op.s = e.gets("s"); op.t = (int)e.geti("t"); op.fkind = (int)e.geti("kind"); op.loc = (int)e.geti("loc"); op.usage = (int)e.geti("usage"); op.tty = (int)e.geti("tty"); op.name = e.gets("name"); if (op.name.find('\0') != string::npos) op.name = op.name.substr(0, op.name.find('\0'));
         const sj::Value *c = e.get("chunks"); if (c) for (auto &x : c->a) op.chunks.push_back(x.i < 1 ? 1 : x.i);
         const sj::Value *f = e.get("ff");
         if (f && f->kind == sj::Value::Obj) { op.ff_kind = f->gets("kind"); op.ff_errno = (int)f->geti("errno"); op.ff_at = f->geti("at", -1); op.ff_transient = (int)f->geti("transient"); }
@@ -118,11 +120,11 @@ static Plan plan_from_json(const sj::Value &j) {
 
 // structured view of a plan (ops interpreted modulo structure: any subsequence is legal)
 struct SFile { string name; int fkind = 0; string data; vector<long long> chunks; string ff_kind; int ff_errno = 0; long long ff_at = -1; int ff_transient = 0; int nlines = 0; };
-struct SInv { vector<SFile> files; string of_kind; long long of_at = -1; int of_errno = 0; int loc = 0; int usage = 0; };
+struct SInv { vector<SFile> files; string of_kind; long long of_at = -1; int of_errno = 0; int loc = 0; int usage = 0; int tty = 0; };
 static vector<SInv> structure(const Plan &p) {
     vector<SInv> inv;
     for (auto &op : p.ops) {
-        if (op.k == "INVOKE") { SInv i; i.of_kind = op.of_kind; i.of_at = op.of_at; i.of_errno = op.of_errno; i.loc = op.loc; i.usage = op.usage; inv.push_back(i); }
+        if (op.k == "INVOKE") { SInv i; i.of_kind = op.of_kind; i.of_at = op.of_at; i.of_errno = op.of_errno; i.loc = op.loc; i.usage = op.usage; i.tty = op.tty; inv.push_back(i); }
         else if (op.k == "FILE") {
             if (inv.empty()) inv.push_back(SInv());
             SFile f; f.fkind = op.fkind; f.name = op.name; f.chunks = op.chunks; f.ff_kind = op.ff_kind; f.ff_errno = op.ff_errno; f.ff_at = op.ff_at; f.ff_transient = op.ff_transient;
@@ -241,11 +243,25 @@ extern "C" char *__wrap_strerror(int e) {
 }
 
 // what the simulated file system says about an input stream: descriptor numbers 1000+N, fstat() per the plan's file kind
+extern "C" int __real_isatty(int fd);
+extern "C" int __wrap_isatty(int fd) {
+    // where the user's stdout / stderr go is part of the environment: a terminal or not
+    if (S && S->inv && (fd == 1 || fd == 2 || fd == 2001 || fd == 2002)) { int bit = (fd == 1 || fd == 2001) ? 1 : 2; if (S->inv->tty & bit) return 1; errno = ENOTTY; return 0; }
+    return __real_isatty(fd);
+}
 extern "C" int __wrap_fileno(FILE *f) {
+    if (S && f && f == S->cap_out) return 2001;
+    if (S && f && f == S->cap_err) return 2002;
     if (S && f) for (size_t i = 0; i < S->fs.size(); i++) if (S->fs[i].fp == f && !S->fs[i].closed) return 1000 + (int)i;
     return __real_fileno(f);
 }
 extern "C" int __wrap_fstat(int fd, struct stat *st) {
+    if (S && S->inv && (fd == 2001 || fd == 2002)) {
+        memset(st, 0, sizeof *st);
+        st->st_mode = (S->inv->tty & (fd == 2001 ? 1 : 2)) ? (S_IFCHR | 0620) : (S_IFIFO | 0600);
+        st->st_blksize = 4096; st->st_nlink = 1;
+        return 0;
+    }
     if (S && fd >= 1000 && fd < 1000 + (int)S->fs.size()) {
         const SFile &f = *S->fs[fd - 1000].f;
         memset(st, 0, sizeof *st);
@@ -454,7 +470,7 @@ struct Exec {
         sim.in_harness++;
         sim.cap_out = fopencookie(&sim.out, "w", oio); sim.cap_err = fopencookie(&sim.err, "w", oio);
         static char outbuf[8192];                   // stdout is fully buffered as for a pipe or file; the buffer is the harness's
-        setvbuf(sim.cap_out, outbuf, _IOFBF, sizeof outbuf);
+        setvbuf(sim.cap_out, outbuf, (iv.tty & 1) ? _IOLBF : _IOFBF, sizeof outbuf);      // line buffered on a terminal, as stdio does
         setvbuf(sim.cap_err, nullptr, _IONBF, 0);
         sim.in_harness--;
         // the environment the user runs the tool in
@@ -715,6 +731,7 @@ static Plan gen_plan(const string &cfg, uint64_t seed, long long index) {
         Op inv; inv.k = "INVOKE";
         { unsigned lc = (unsigned)sim_below(&w, 10); inv.loc = lc < 6 ? 0 : lc < 8 ? 1 : 2; }
         { sim_rng u = sim_derive(rs, 40 + (uint64_t)iv); if (sim_below(&u, 40) == 0) inv.usage = 1 + (int)sim_below(&u, 2); }
+        { sim_rng u = sim_derive(rs, 80 + (uint64_t)iv); if (sim_below(&u, 3) == 0) inv.tty = 1 + (int)sim_below(&u, 3); }     // one invocation in three writes to a terminal
         if (cfg == "outfault" && sim_below(&f, 100) < 70) {
             unsigned k = (unsigned)sim_below(&f, 3);
             inv.of_kind = k == 0 ? "short" : k == 1 ? "enospc" : "epipe"; inv.of_errno = k == 1 ? ENOSPC : EPIPE;
